@@ -1,6 +1,7 @@
 package main
 
 import (
+	"go/constant"
 	"go/ast"
 	"go/token"
 	"go/types"
@@ -26,6 +27,7 @@ func checkC11(c *Check) {
 	c.Rule("L2", "the bucket table of a BucketSet is only touched while its mutex is held (a permit taken from a bucket that a concurrent reaper just replaced is never given back to the bucket that counts it)", 3)
 	locksetRule(c, "L2", limitersRel, "BucketSet", "mLck", []string{"m"}, map[string]string{})
 
+	c11BucketSet(c)
 	c11Wiring(c)
 	c11Pairing(c)
 	c11NoCrash(c)
@@ -1180,4 +1182,187 @@ func c11AddrKey(r *RuleCtx, cp Pt, arg ast.Expr) string {
 		}
 	}
 	return ""
+}
+
+
+// R7: BucketSet enforces. With a constructor configured, Take / TakeContext succeed only as the answer of the
+// key's own limiter; without one they are no-ops; a full table refuses; a bucket is created exactly when the key
+// has none; Release gives the permit back to the key's limiter.
+func c11BucketSet(c *Check) {
+	c.Rule("R7", "BucketSet: with a limiter constructor configured Take/TakeContext succeed only as the answer of the key's limiter and Release reaches it; without one they are no-ops; a nil bucket (table full) is refused; take() stores a bucket exactly when the key has none and hands out the stored one", 8)
+	newWorld := func(r *RuleCtx, configured bool) func(b *cfgBlock, i int) bool {
+		info := r.Info
+		return r.F.World(func(atom ast.Expr) (bool, bool) {
+			be, ok := ast.Unparen(atom).(*ast.BinaryExpr)
+			if !ok || (be.Op != token.EQL && be.Op != token.NEQ) || !isNilIdent(info, be.Y) {
+				return false, false
+			}
+			if fv := fieldOf(info, be.X); fv != nil && objName(fv) == "New" {
+				return (be.Op == token.NEQ) == configured, true
+			}
+			return false, false
+		})
+	}
+	for _, m := range []struct {
+		name  string
+		inner []string
+	}{
+		{"Take", []string{"Take"}},
+		{"TakeContext", []string{"TakeContext"}},
+		{"Release", []string{"Release"}},
+	} {
+		r := c.need("R7", limitersRel, "BucketSet", m.name)
+		if r == nil {
+			continue
+		}
+		info := r.Info
+		inner := func(q Pt) bool {
+			// a call of the limiter interface method (through the bucket) – also as the returned expression
+			hit := false
+			n := q.Node()
+			if n == nil {
+				return false
+			}
+			inspectNoLit(n, func(x ast.Node) bool {
+				if call, ok := x.(*ast.CallExpr); ok && isCall(info, call, "~/"+limitersRel+".L."+m.inner[0]) {
+					hit = true
+				}
+				return true
+			})
+			return hit
+		}
+		okExit := func(q Pt) bool {
+			k, ret := r.F.Exit(q)
+			if k == NotExit || !r.F.IsNormalExit(q) {
+				return false
+			}
+			if ret == nil || len(ret.Results) == 0 {
+				return true // Release: any return
+			}
+			last := ast.Unparen(ret.Results[len(ret.Results)-1])
+			if isNilIdent(info, last) {
+				return true
+			}
+			if tv, ok := info.Types[last]; ok && tv.Value != nil && tv.Value.Kind() == constant.Bool {
+				return constant.BoolVal(tv.Value)
+			}
+			return false
+		}
+		msg := ""
+		if path, f := r.F.Reach(Query{From: r.Entry(), Inclusive: true, Target: okExit, Avoid: inner, AvoidEdge: newWorld(r, true)}); f && m.name != "Release" {
+			msg = "with a limiter configured, " + m.name + " can succeed without asking the key's limiter (the limit is not enforced): " + r.F.Describe(path)
+		} else if _, f := r.F.Reach(Query{From: r.Entry(), Inclusive: true, Target: inner, AvoidEdge: newWorld(r, true)}); !f {
+			msg = "with a limiter configured, " + m.name + " never reaches the key's limiter"
+		} else if _, f := r.F.Reach(Query{From: r.Entry(), Inclusive: true, Target: inner, AvoidEdge: newWorld(r, false)}); f {
+			msg = "without a limiter constructor " + m.name + " still goes to the table (nil constructor is called)"
+		} else if _, f := r.F.Reach(Query{From: r.Entry(), Inclusive: true, Target: okExit, AvoidEdge: newWorld(r, false)}); !f {
+			msg = "without a limiter constructor " + m.name + " does not succeed (an unconfigured scope refuses everything)"
+		}
+		c.Hold("R7", "BucketSet."+m.name+":enforces-iff-configured", r.FI.Decl.Pos(), msg == "", msg)
+		if m.name == "Release" {
+			// the key's bucket: released when it exists, left alone when it does not
+			msg := "undecided: no table lookup in Release"
+			for _, pt := range r.F.Points() {
+				as, isAs := pt.Node().(*ast.AssignStmt)
+				if !isAs || len(as.Lhs) != 2 || len(as.Rhs) != 1 {
+					continue
+				}
+				if _, isIx := ast.Unparen(as.Rhs[0]).(*ast.IndexExpr); !isIx {
+					continue
+				}
+				okObj := objOf(info, as.Lhs[1])
+				msg = ""
+				if path, f := r.F.ReachRefined(pt, okObj, true, true, inner, nil); f {
+					msg = "Release dereferences the bucket of a key that has none: " + r.F.Describe(path)
+				} else if _, f := r.F.ReachRefined(pt, okObj, false, true, inner, nil); !f {
+					msg = "the permit of a key that has a bucket is never given back (the concurrency limit fills up and refuses everybody)"
+				}
+			}
+			c.Hold("R7", "BucketSet.Release:existing-bucket-released", r.FI.Decl.Pos(), msg == "", msg)
+			continue
+		}
+		// nil bucket refused
+		take := calling("~/" + limitersRel + ".BucketSet.take")
+		msg = "undecided: no call of take"
+		for _, pt := range r.Calls(take) {
+			as, ok := pt.Node().(*ast.AssignStmt)
+			if !ok || len(as.Lhs) != 1 {
+				continue
+			}
+			b := objOf(info, as.Lhs[0])
+			msg = ""
+			if path, f := r.F.ReachRefined(pt, b, true, false, orPt(okExit, inner), nil); f {
+				msg = "when the table is full (no bucket) " + m.name + " succeeds or dereferences the missing bucket: " + r.F.Describe(path)
+			}
+		}
+		c.Hold("R7", "BucketSet."+m.name+":full-table-refused", r.FI.Decl.Pos(), msg == "", msg)
+	}
+	if r := c.need("R7", limitersRel, "BucketSet", "take"); r != nil {
+		info := r.Info
+		// the lookup `bucket, ok := r.m[key]`
+		var lookPt Pt
+		var okObj, bObj types.Object
+		for _, pt := range r.F.Points() {
+			if as, isAs := pt.Node().(*ast.AssignStmt); isAs && len(as.Lhs) == 2 && len(as.Rhs) == 1 {
+				if ix, isIx := ast.Unparen(as.Rhs[0]).(*ast.IndexExpr); isIx {
+					if fv := fieldOf(info, ix.X); fv != nil && objName(fv) == "m" {
+						lookPt, bObj, okObj = pt, objOf(info, as.Lhs[0]), objOf(info, as.Lhs[1])
+					}
+				}
+			}
+		}
+		stores := r.Assigns(func(l, _ ast.Expr) bool {
+			ix, ok := ast.Unparen(l).(*ast.IndexExpr)
+			if !ok {
+				return false
+			}
+			fv := fieldOf(info, ix.X)
+			return fv != nil && objName(fv) == "m"
+		})
+		msg := ""
+		switch {
+		case okObj == nil || bObj == nil || len(stores) == 0:
+			msg = "undecided: the table lookup / the insertion was not found"
+		default:
+			if path, f := r.F.ReachRefined(lookPt, okObj, false, true, isPt(stores), nil); f {
+				msg = "a bucket that exists is replaced by a fresh one (the key's count starts from zero on every call: the limit is never reached): " + r.F.Describe(path)
+			} else if path, f := r.F.ReachRefined(lookPt, okObj, true, true, r.IsNormalExitNonNil(info), isPt(stores)); f {
+				msg = "for a key without a bucket none is stored before one is handed out: " + r.F.Describe(path)
+			}
+		}
+		c.Hold("R7", "BucketSet.take:insert-iff-missing", r.FI.Decl.Pos(), msg == "", msg)
+		// full table: after the eviction pass, in the world 'still over the maximum' the function returns nil
+		isOver := func(atom ast.Expr) bool {
+			be, ok := ast.Unparen(atom).(*ast.BinaryExpr)
+			if !ok || (be.Op != token.GTR && be.Op != token.GEQ) {
+				return false
+			}
+			fv := fieldOf(info, be.Y)
+			return fv != nil && objName(fv) == "MaxBuckets"
+		}
+		over := r.F.World(func(atom ast.Expr) (bool, bool) {
+			if isOver(atom) {
+				return true, true
+			}
+			return false, false
+		})
+		msg = ""
+		if okObj != nil {
+			if path, f := r.F.Reach(Query{From: r.Entry(), Inclusive: true, Target: func(q Pt) bool { return q == lookPt }, AvoidEdge: over}); f {
+				msg = "with the table over its maximum after the eviction pass another bucket is still created (unbounded memory under a flood of keys): " + r.F.Describe(path)
+			}
+		}
+		c.Hold("R7", "BucketSet.take:bounded", r.FI.Decl.Pos(), msg == "" && okObj != nil, msg)
+	}
+}
+
+// IsNormalExitNonNil: a normal return whose last result is not the nil literal.
+func (r *RuleCtx) IsNormalExitNonNil(info *types.Info) func(Pt) bool {
+	return func(q Pt) bool {
+		k, ret := r.F.Exit(q)
+		if k == NotExit || !r.F.IsNormalExit(q) || ret == nil || len(ret.Results) == 0 {
+			return false
+		}
+		return !isNilIdent(info, ret.Results[len(ret.Results)-1])
+	}
 }
